@@ -1,5 +1,5 @@
 """C05  The driver always yields and always wakes: no deadlock, no lost wake-up."""
-from props import threadgen, c02
+from props import threadgen, c02, c09
 
 ID = "C05"
 SRC = threadgen.SRC
@@ -10,6 +10,9 @@ HARNESSES = {
     # queue under the same cooperative scheduler (sendQMtx lock/unlock are schedule points: the empty/refill window);
     # evaluated by the C02 driver (every buffer arrives, every future gets its value, every buffer returns to the pool)
     "asend_sched": dict(c02.HARNESSES["asend_sched"]),
+    # the UDP send-to queue: "a queued buffer is transmitted": datagrams queued behind a failed / oversize one, and every later
+    # request, must still be sent by the following steps (evaluated by the C09 driver: 'Step did nothing although ... (held up)')
+    "udp": dict(c09.HARNESSES["udp"]),
     "threads_tsan": dict(name="threads_rt", sources=["scen/threads_rt.cpp"], flavour="tsan", mode="C04rt", timeout=60, jobs=4,
                          env={"TSAN_OPTIONS": "halt_on_error=1:exitcode=66"}),
 }
@@ -29,7 +32,7 @@ SHRINK = False  # removing threads/actions changes the scenario (e.g. drops the 
 
 
 def nontrivial(ops, tags):
-    return "contended" in tags or any(o.startswith("mt ") for o in ops)
+    return "contended" in tags or any(o.startswith("mt ") for o in ops) or "asend" in tags
 
 
 def gen(rng, tier):
@@ -45,6 +48,12 @@ def gen(rng, tier):
         th, per = rng.choice([1, 2, 2, 3]), rng.choice([1, 1, 2, 3])
         cases.append(("asend_sched", "q%d" % k, ["mt %d %d %d %d %d" % (th, per, rng.choice([0, 1, 5, 40]),
                                                                       rng.choice([0, 0, 2, 5, 9]), rng.randrange(1, 10**9))]))
+    k = 0
+    while k < (60 if tier == "quick" else 2000):
+        ops = c09.rand_history(rng)
+        if sum(o.startswith("asend") for o in ops) >= 2:     # at least two queued datagrams on an asynchronous socket
+            cases.append(("udp", "u%d" % k, ops))
+            k += 1
     if tier == "thorough":
         base1 = ["sched 7", "drv run", "usr u1 udp sendto close", "usr u2 todo:0 cancel", "usr stopper waitothers stop", "go"]
         base2 = ["sched 7", "drv steps 3 0", "usr u1 udp close", "usr u2 todo:0 shift:0", "go"]
